@@ -13,7 +13,7 @@ try:
     wd = vlib.workdir("try", fresh=True)
     out = os.path.join(wd, "t.ndjson")
     h = vlib.run_harness(coll, driver, params, out)
-    v = vlib.tlc_trace(plans.spec_of(coll), out, os.path.join(wd, "meta"))
+    v = vlib.tlc_trace(plans.spec_of(coll), out, os.path.join(wd, "meta"), big=int(params.get("deep", 0)) > 500000)
     c = collections.Counter(x["tag"] for x in v["viols"])
     print(f"{coll}/{driver}: status={h['status']} events={h['events']} accepted={v['accepted']} wall={v['wall']:.1f}s viols={dict(c)} breaches={len(v['breaches'])} drift={len(v['drift'])}")
     for x in v["viols"][:3]:
